@@ -7,6 +7,74 @@ HAL_RULE = ("cases = (HAL operation out of the 83-entry catalogue in harness/src
             "masks and operand values (extreme, alternating, sparse, uniform classes). Non-trivial = N >= 2 and a non-zero result; distinct = hash of the tuple")
 
 PROPS = {
+    "C16": dict(
+        level="exploration",
+        runs=[dict(name="rel", flavour="rel", shards=16, timeout=1500, timeout_thorough=7200)],
+        rule=("a case is one operation of a random straight-line CKKS program (10-28 steps over 4 registers, 69 operation/form names, f64 and f128 plaintext element types, four backends) "
+              "executed on the library and judged against a shadow evaluation on complex double-double slot vectors with a tracked (statistical, worst-case) error bound: value, metadata "
+              "invariants, error paths (budget exhausted, missing key, impossible alignment, too few limbs must give the documented CKKSCompositionError variant), panic monitor. The case key is "
+              "backend | element type | N | base2k | form | operand metadata (log_delta.log_budget.size.max_k of every operand) | expected outcome; non-trivial unless a fresh encryption of the zero vector"),
+        min_evaluations=dict(quick=1000000, thorough=20000000),
+        min_counters=dict(quick={"programs": 1000, "steps_ok": 100000, "error_paths_exercised": 100, "error_path:InsufficientHomomorphicCapacity": 1, "error_path:MultiplicationPrecisionUnderflow": 1,
+                                 "error_path:MissingAutomorphismKey": 1, "error_path:PlaintextAlignmentImpossible": 1, "error_path:LimbReallocationShrinksBelowMetadata": 1, "results_not_compacted": 1},
+                          thorough={"programs": 20000, "steps_ok": 2000000, "error_paths_exercised": 1000}),
+        assumptions=["a step violates when the observed slot error exceeds 16 x the statistical part + 2 x the worst-case part of the tracked bound (worst ratio observed on the pinned tree: 0.57)",
+                     "not covered: dsize > 1 keys, rank > 1, the dot_product_pt_* functions, negative rotation indices with keys",
+                     "div_pow2_into (log_delta + bits) and div_pow2_assign (log_delta unchanged) differ by design (both pinned by the crate's own tests) and are accepted"],
+    ),
+    "C13": dict(
+        level="exploration",   # structural part exhaustive
+        runs=[dict(name="rel", flavour="rel", shards=16, timeout=1200, timeout_thorough=7200)],
+        rule=("cases = (circuit, output bit, phase, shard | edge): 290 compiled tables (9 circuits x 32 bits + slt + sltu). Structural clauses: one walk per table "
+              "with a definedness shadow per buffer slot re-stating eval_level (control flow is input independent, so the walk is complete). Functional clause: the real "
+              "tables run bit-sliced (256 lanes) under the evaluator semantics and are compared with the Rust word operation; bits whose variable set (table selectors "
+              "union mathematical support) has <= 31 (quick) / 40 (thorough) variables are enumerated completely (x_bits[].exhaustive; exh_inputs == exh_inputs_expected), "
+              "the others get a boundary dictionary (carry/borrow chains of every start and length, shift amounts 0..63, sign boundaries, equal prefixes, single bits), one "
+              "constructed input per BDD edge with 256 completions (path confirmed by a scalar trace over the original nodes) and 2^30 / 2^35 structured random pairs per bit. "
+              "Non-trivial = support >= 2; distinct = hash of the tuple"),
+        min_evaluations=dict(quick=17000, thorough=17000),
+        min_counters=dict(quick={"structural_walk_complete": 16, "struct_tables_walked": 290, "struct_reads_checked": 17000, "bits_exhaustive": 236, "exh_inputs": 11000000000,
+                                 "edges_covered": 15356, "edge_path_confirmations": 3900000, "dict_inputs_per_bit": 250000, "random_inputs_per_sampled_bit": 1073741824},
+                          thorough={"structural_walk_complete": 16, "struct_tables_walked": 290, "bits_exhaustive": 264, "edges_covered": 15356}),
+        exhaustive_counter="structural_walk_complete",
+        exhaustive_note="structural clauses (index ranges, stale reads, table length, last-chunk shape) for all 290 tables; functional clause exhaustive for the bits listed with exhaustive=true in x_bits",
+        assumptions=["the link between the table semantics restated here and the homomorphic evaluator is closed by C15",
+                     "slt/sltu have output_size 1: bits 1..31 are zeroed by execute_bdd_circuit, not by a table",
+                     "functional clause for add/sub bits >= 15 (quick) / >= 20 (thorough) and slt/sltu bit 0 is sampled, not decided: the 2^64 quantifier is out of reach for runtime monitoring"],
+    ),
+    "C14": dict(
+        level="exploration",
+        runs=[dict(name="rel", flavour="rel", shards=16, timeout=1500, timeout_thorough=7200)],
+        rule=("clear path: case = (backend, N, ext, len, base2k, k_lut, k_msg) table, N in {8..256(512)}, ext in {1,2,4,8}, every power-of-two len <= N; after set every "
+              "coefficient is compared by value with the index model, then lookup_table_rotate(k) is called for every k in [0,2D) and -k plus out-of-domain indices and all "
+              "digits of all limbs are compared after each call. Blind path: case = one CGGI execution (backend, N, ext, base2k, n_lwe, key distribution, p, direction, "
+              "message, crafted, key seed): every message of Z_{2^(p+1)} for p=1..5, both directions, per key; exact phase of the result compared on all coefficients with "
+              "the model table rotated by the harness's own modulus switch; noise floor 64 sigma_pred. Non-trivial = D >= 4; distinct = hash of the tuple"),
+        min_evaluations=dict(quick=2000000, thorough=10000000),
+        min_counters=dict(quick={"clear_every_k_complete": 64, "clear_rotations_checked": 2000000, "blind_keys": 200, "blind_ext1": 1, "blind_ext2": 1, "blind_ext4": 1, "blind_ext8": 1,
+                                 "blind_left": 1, "blind_right": 1, "blind_crafted_lwe": 1, "ok:blind_execute": 30000},
+                          thorough={"clear_every_k_complete": 64, "blind_keys": 2000, "ok:blind_execute": 300000}),
+        assumptions=["LWE secret binary (block / fixed weight / probability / zero), GLWE secret ternary, rank 1, k_brk = (dnum+1)*base2k as in the repository's test",
+                     "index tolerance: leading-limb vs full-precision rounding when base2k > log2(2D); round/truncate of full value or leading limbs otherwise",
+                     "NTT120 backends run the same generic code with the FFT64 parameter sets (the repository does not instantiate bin-fhe on them)"],
+    ),
+    "C18": dict(
+        level="fault_enumeration",
+        runs=[dict(name="rel", flavour="rel", shards=16, timeout=1500, timeout_thorough=7200),
+              dict(name="dbg", flavour="dbg", shards=16, timeout=1500, timeout_thorough=7200, tiers=["quick"]),
+              dict(name="asan-touch", flavour="asan", shards=16, timeout=1500, timeout_thorough=7200, args=["--mode", "asan-touch"], tiers=["quick"])],
+        rule=("cases = (type, shape, source kind, receiver kind, fault) over the 30 serialisable types of poulpy-hal, poulpy-core (standard and compressed) and poulpy-bin-fhe, "
+              "where fault is one of: none (round trip), truncate@t for every prefix length t (all t for streams <= 6000/20000 bytes, header bytes + boundaries + 24 interior "
+              "points per region otherwise), or (header field, injected value, family) over the boundary dictionary {0,1,2,2^31,2^32-1,2^32,2^61,2^61+1,2^62,2^63,2^64-1,v-1,v+1, "
+              "wrap-to-same-length}; shapes: 2-3 fixed per type (seed-independent) + 6 (quick) / 250 (thorough) drawn from VERIF_SEED; receivers same/exact/larger/shrunk/smaller; "
+              "a case is non-trivial when N >= 2; distinct = distinct hashes of that tuple (one per truncation sweep)"),
+        min_evaluations=dict(quick=1000000, thorough=40000000),
+        min_counters=dict(quick={"types_covered": 30, "roundtrip_equal": 1, "roundtrip_partialeq_true": 1, "trailing_bytes_left_unread": 1, "truncation_points": 500000,
+                                 "truncation_full_sweeps": 1, "mutations_rejected": 1, "mutations_accepted_consistent": 1, "insufficient_receiver_rejected": 1},
+                          thorough={"types_covered": 30, "truncation_points": 30000000, "mutations_rejected": 1}),
+        assumptions=["receivers whose fields are pub(crate) are observed through their own re-serialisation, parsed by an independent model of the wire format",
+                     "attacker-sized allocations run in child processes under RLIMIT_AS; a receiver with broken invariants is only touched in the asan-touch children"],
+    ),
     "C15": dict(
         level="exploration",
         runs=[dict(name="rel", flavour="rel", shards=16, timeout=2400, timeout_thorough=10800)],
